@@ -1740,7 +1740,8 @@ static int check_basis_arrays (
 	int nstruct,
 	int nrows,
 	const char *cstat,
-	const char *rstat)
+	const char *rstat,
+	const char *sense)
 {
 	int i, nbas = 0;
 
@@ -1768,7 +1769,14 @@ static int check_basis_arrays (
 			nbas++;
 			break;
 		case QS_ROW_BSTAT_LOWER:
+			break;
 		case QS_ROW_BSTAT_UPPER:
+			/* only the logical of a ranged row has an upper bound to sit at */
+			if (sense[i] != 'R')
+			{
+				QSlog("row %d is not ranged and cannot be non-basic at upper", i);
+				return 1;
+			}
 			break;
 		default:
 			QSlog("unknown row basis status %d for row %d", rstat[i], i);
@@ -1799,7 +1807,8 @@ EGLPNUM_TYPENAME_QSLIB_INTERFACE int EGLPNUM_TYPENAME_QSload_basis (
 		goto CLEANUP;
 	}
 	/* reject an invalid basis before the current one is given up */
-	rval = check_basis_arrays (B->nstruct, B->nrows, B->cstat, B->rstat);
+	rval = check_basis_arrays (B->nstruct, B->nrows, B->cstat, B->rstat,
+														 p->qslp->sense);
 	CHECKRVALG (rval, CLEANUP);
 
 	if (p->basis == 0)
@@ -1886,7 +1895,8 @@ EGLPNUM_TYPENAME_QSLIB_INTERFACE int EGLPNUM_TYPENAME_QSload_basis_array (
 		rval = 1;
 		goto CLEANUP;
 	}
-	rval = check_basis_arrays (qslp->nstruct, qslp->nrows, cstat, rstat);
+	rval = check_basis_arrays (qslp->nstruct, qslp->nrows, cstat, rstat,
+														 qslp->sense);
 	CHECKRVALG (rval, CLEANUP);
 
 	if (p->basis == 0)
